@@ -304,6 +304,53 @@ def run(prog: Program, res: Result) -> None:
         else:
             bad("R4-children-built-from-measured-sequence", init or vf.cls.node, name, f"{name}: {why}", "children")
 
+    # ------------------------------------------------------------------ R6 the permutation's label table keeps the declared items
+    # PermutationVariable.decode goes through LabelEncoder: the labels it hands back must be the declared items themselves.
+    # Building the table through a numpy array coerces them (a mixed str/int list becomes all-str, tuples are flattened).
+    le = prog.classes.get(f"{PKG}.models.LabelEncoder")
+    if le is None or "fit" not in le.methods:
+        res.errors.append("models.LabelEncoder.fit vanished")
+    else:
+        fit = le.methods["fit"]
+        stores = [n for n in own_nodes(fit) if isinstance(n, ast.Assign) and any(
+            isinstance(t, ast.Attribute) and "unique_labels" in t.attr for t in n.targets)]
+        ITEM_KEEPING = {"sorted", "set", "list", "tuple", "frozenset", "reversed", "dict.fromkeys", "isinstance", "len", "enumerate", "zip",
+                        "range", "iter", "next", "type", "id", "hash"}
+        COERCING = ("np.", "numpy.", "pd.", "pandas.", "str", "repr", "float", "int", "map")
+        for st in stores:
+            seen_calls = []
+            work = [st.value]
+            visited = set()
+            while work:
+                e = work.pop()
+                for x in ast.walk(e):
+                    if isinstance(x, ast.Call):
+                        seen_calls.append(x)
+                    if isinstance(x, ast.Name) and isinstance(x.ctx, ast.Load) and x.id not in visited and x.id not in fit.params:
+                        visited.add(x.id)
+                        from ..flow import store_sites
+                        for (_s, v_, k_) in store_sites(fit.node, x.id):
+                            if k_ == "assign" and v_ is not None:
+                                work.append(v_)
+            coercing = [c for c in seen_calls if (dotted(c.func) or "").startswith(COERCING[:4]) or
+                        (isinstance(c.func, ast.Name) and c.func.id in COERCING[4:] and not _inside_key_lambda(c))]
+            unknown = [c for c in seen_calls if c not in coercing and (dotted(c.func) or "?") not in ITEM_KEEPING
+                       and not _inside_key_lambda(c)]
+            key = construct_key(prog, st, fit.module)
+            if coercing:
+                res.ob(False)
+                res.add(Finding(P, "C13.R6-label-table-keeps-items", key, f"{fit.module.relpath}:{st.lineno}",
+                                f"LabelEncoder.fit builds its label table through `{norm(coercing[0], 50)}`: the declared items are "
+                                f"converted (numpy turns a mixed str/number list into strings and flattens tuples), so "
+                                f"PermutationVariable.decode returns values that are not the declared items"))
+            elif unknown:
+                res.errors.append(f"{fit.module.relpath}:{st.lineno} LabelEncoder.fit: label table built through "
+                                  f"`{norm(unknown[0], 50)}`, not known to keep the items as they are (undecided)")
+            else:
+                res.ob(True, f"{fit.module.relpath}:{st.lineno} label table = {norm(st.value, 60)} (items kept as declared)", key)
+        res.count("label-table-stores", len(stores))
+        res.floor("label-table-stores", 1)
+
     # ------------------------------------------------------------------ R5 validators (rejection formulas)
     from ..frm import canon_expr, equivalent, f_and, f_or, raise_formula
 
@@ -351,11 +398,21 @@ def run(prog: Program, res: Result) -> None:
     must_reject(bv, [f"{v} <= 0" for v in (vparams or ["v"])], "n_vars <= 0")
 
 
+def _inside_key_lambda(n) -> bool:
+    """a call inside the key= lambda of sorted() orders the items, it does not change them"""
+    from ..model import ancestors as _anc
+    return any(isinstance(a, ast.Lambda) for a in _anc(n))
+
+
 # ---------------------------------------------------------------------------------------------
 from ..selftest import V, run_battery  # noqa: E402
 
 _M = "pyvolutionary/models.py"
 VARIANTS = [
+    V("label-table-through-numpy", "pyvolutionary/models.py", "        self.__unique_labels__ = sorted(set(y), key=lambda x: (isinstance(x, (int, float)), x))",
+      "        self.__unique_labels__ = np.unique(np.asarray(y)).tolist()", "C13.R6"),
+    V("twin-label-table-two-steps", "pyvolutionary/models.py", "        self.__unique_labels__ = sorted(set(y), key=lambda x: (isinstance(x, (int, float)), x))",
+      "        distinct = set(y)\n        self.__unique_labels__ = sorted(distinct, key=lambda x: (isinstance(x, (int, float)), str(x)))", None),
     V("clip-bounds-swapped", _M, "        return float(np.clip(value, self.lower_bound, self.upper_bound))",
       "        return float(np.clip(value, self.upper_bound, self.lower_bound))", "C13.R2"),
     V("discrete-upper-len", _M, "        return 0, len(self.choices) - 1", "        return 0, len(self.choices)", "C13.R2"),
